@@ -112,6 +112,20 @@ theorem labelled_call_witness :
 theorem computed_goto_witness : recordedOf ["go to (10, 20) fa(1)"] = [] := by
   decide +kernel
 
+/-- **Text inside a character literal is inert.**  The statement the cascade and the scanner
+    see is `maskQuotes raw`; for the first literal of a statement (opening quote `q`, any body
+    without `q`, closing `q` not followed by another `q`) the masked statement does not depend
+    on the body at all - whatever call-like text, parentheses, `%`, `!` or the other quote
+    character it contains. -/
+theorem literal_text_inert (pre body₁ body₂ post : Str) (q : Char) (hq : isQuote q = true)
+    (hpre : ∀ c ∈ pre, isQuote c = false) (h1 : ∀ c ∈ body₁, c ≠ q) (h2 : ∀ c ∈ body₂, c ≠ q)
+    (hp : post.head? ≠ some q) :
+    maskQuotes (pre ++ q :: (body₁ ++ q :: post)) = maskQuotes (pre ++ q :: (body₂ ++ q :: post)) := by
+  simp only [maskQuotes, maskAux_prefix _ _ _ hpre, maskAux_literal q hq _ post 0 h1 hp,
+    maskAux_literal q hq _ post 0 h2 hp]
+
+example : maskQuotes "s = 'call g(1)' // fa(2)".toList = "s = \"0\" // fa(2)".toList := by decide +kernel
+
 /-- Non-vacuity / sanity: CALL statement, nested function references in arguments and in an
     IF header, an array-like reference, an intrinsic, a keyword, call-like text in a literal. -/
 example : recordedOf ["if (fa(1) > 0) call sb(fb(arr(2)), sin(x), 'call g(1)')"]
